@@ -572,6 +572,18 @@ pub fn to_violation(seed: u64, run: u64, family: &str, sc: &Scenario, f: &Fail) 
                     None => Json::Null,
                 },
             ),
+        replay_full: Some(
+            Json::obj()
+                .set("property", Json::s("C19"))
+                .set("engine", Json::s("faults"))
+                .set("invariant", Json::s(f.invariant))
+                .set("seed", Json::Int(seed as i128))
+                .set("run", Json::Int(run as i128))
+                .set("family", Json::s(family))
+                .set("scenario", scenario_to_json(sc))
+                .set("failing_step", Json::u(f.step))
+                .set("observed", Json::s(&f.observed)),
+        ),
     }
 }
 
